@@ -200,6 +200,105 @@ def describe_explain(case, obs, pred):
     return None
 
 
+# ---- family c09hello: the plugin schema served by the real ATP server and read by the real ATP client ----
+
+# what the decoder of the ATP client accepts (fxamacker/cbor default MaxNestedLevels; Schema/DescribeNest.v
+# cbor_max_nested): a hello message nested deeper is outside the property as long as it is rejected with an error
+HELLO_MAX_NEST = 32
+
+
+def _hello_parts(obs):
+    """(d1_class, nest, res, shut, rest) of a parsed c09hello observation, None when it has another shape."""
+    o = _P.sx_parse(obs)[2]
+    if not isinstance(o, list) or not o or o[0] != "h":
+        return None
+    if len(o) == 2:
+        return (_class(o[1]), None, None, None, [])
+    try:
+        nest = int(o[2])
+    except (TypeError, ValueError):
+        return None
+    return (_class(o[1]), nest, o[3], o[4] if len(o) > 4 else None, o[5:])
+
+
+def hello_stats(rows):
+    by_nest, outcomes, kinds = {}, {}, {}
+    distinct = set()
+    nontrivial = accepted = rejected = 0
+    samples = []
+    for case, obs, pred in rows:
+        pl = _P.case_payload(case)
+        for k, n in _kinds(pl).items():
+            kinds[k] = kinds.get(k, 0) + n
+        parts = _hello_parts(obs) if obs.startswith("(obs") else None
+        if parts is None:
+            outcomes["other"] = outcomes.get("other", 0) + 1
+            continue
+        d1, nest, res, shut, rest = parts
+        if nest is not None:
+            by_nest[nest] = by_nest.get(nest, 0) + 1
+        key = "not described" if nest is None else (
+            ("within the limit" if nest <= HELLO_MAX_NEST else "beyond the limit") + ": ReadSchema " + str(res))
+        outcomes[key] = outcomes.get(key, 0) + 1
+        for _, o1, o2 in _beh_pairs(["r"] + [x for x in rest if isinstance(x, list)]):
+            if _class(o1) == "ok":
+                accepted += 1
+            else:
+                rejected += 1
+        h = hashlib.sha1(re.sub(r"^\(case \S+ ", "", case).encode()).digest()
+        if h in distinct:
+            continue
+        distinct.add(h)
+        # non-trivial: read through the transport, the hello message nests at least 20 levels (two scopes inside the
+        # data schema, or as many list / map / one-of levels) and the schema uses at least four kinds of node
+        if res == "ok" and nest is not None and nest >= 20 and len(_kinds(pl)) >= 4:
+            nontrivial += 1
+        if len(samples) < 2 and len(distinct) % 61 == 7:
+            samples.append({"case": case[:1500], "observed": obs[:400]})
+    return {"cases": len(rows), "distinct": len(distinct), "distinct_nontrivial": nontrivial, "outcomes": outcomes,
+            "hello_message_nesting": {str(k): by_nest[k] for k in sorted(by_nest)},
+            "schema_nodes_by_kind": kinds,
+            "behaviour_inputs": {"accepted_by_original": accepted, "rejected_by_original": rejected},
+            "samples": samples}
+
+
+def hello_direct(case, obs):
+    """The last clause of the property on the observation alone: the schema the ATP client returns."""
+    if obs in ("panic", "crash", "hang"):
+        return "serving a plugin schema over ATP and reading it with the ATP client ended in a " + obs
+    if obs.startswith("(bad") or obs.startswith("(build-failed"):
+        return None
+    parts = _hello_parts("(obs x " + obs + ")")
+    if parts is None:
+        return None
+    d1, nest, res, shut, rest = parts
+    if nest is None:
+        return "SelfSerialize of a plugin schema built through the public constructors failed (%s)" % d1
+    if res in ("panic", "hang"):
+        return ("Client.ReadSchema against the real ATP server ended in a %s (plugin schema whose hello message nests "
+                "%d levels)" % (res, nest))
+    if res != "ok":
+        if nest <= HELLO_MAX_NEST:
+            return ("the plugin schema is not carried in the ATP hello message: the real server sent it, Client.ReadSchema "
+                    "returned an error (hello message nested %d levels, the transport carries %d; SelfSerialize and the "
+                    "direct rebuild of the same description work)" % (nest, HELLO_MAX_NEST))
+        return None  # deeper than the transport carries, and rejected with an error: outside the property
+    if not rest:
+        return None
+    if rest[0] != "ok":
+        return "the plugin schema the ATP client returned cannot be used: first use of its data schemas gave %s" % rest[0]
+    if len(rest) > 1 and rest[1] != "same":
+        return ("the plugin schema the ATP client returned describes itself differently from the one the plugin serves (%s)"
+                % _class(rest[1]))
+    for label, o1, o2 in _beh_pairs(["r"] + [x for x in rest[2:] if isinstance(x, list)]):
+        a = _erase_named(_P.strip_err_paths(_sx(o1)))
+        b = _erase_named(_P.strip_err_paths(_sx(o2)))
+        if a != b:
+            return ("the plugin schema the ATP client returned %sbehaves differently from the plugin's own on an input: "
+                    "original %s, read from the hello message %s" % (("(" + label + ") ") if label else "", a[:300], b[:300]))
+    return None
+
+
 def _known(quirk):
     def pred(m, case, obs, pred_):
         # only the defect itself: SelfSerialize fails, and the schema carries the class
@@ -210,18 +309,27 @@ def _known(quirk):
 def register(props):
     global _P
     _P = props
+    # c09hello cases are whole plugin schemas nested up to the transport's limit: 8 of them re-evaluated inside Coq cost
+    # what 24 cases of another family cost (the in-Coq sample keeps extraction under test; the model comparison covers all)
+    if not hasattr(props, "COQ_SAMPLE_N"):
+        props.COQ_SAMPLE_N = {}
+    props.COQ_SAMPLE_N["c09hello"] = 8
     props.FAMILY_STATS["c09describe"] = describe_stats
     props.DIRECT[("C09", "c09describe")] = describe_direct
     props.EXPLAIN[("C09", "c09describe")] = describe_explain
     props.AGREE = getattr(props, "AGREE", {})
     props.AGREE[("C09", "c09describe")] = describe_agree
+    props.FAMILY_STATS["c09hello"] = hello_stats
+    props.DIRECT[("C09", "c09hello")] = hello_direct
+    props.EXPLAIN[("C09", "c09hello")] = describe_explain
+    props.AGREE[("C09", "c09hello")] = describe_agree
     for q in ("enum-key", "typed-enum"):
         props.KNOWN_PREDICATES["c09-" + q] = _known(q)
     d29 = [_known(q) for q in ("bad-id", "empty-display", "empty-enum", "nil-enum-display")]
     props.KNOWN_PREDICATES["c09-d29"] = lambda m, case, obs, pred_: any(f(m, case, obs, pred_) for f in d29)
     props.PROPS["C09"] = {
         "theory": "Properties/C09.v",
-        "families": ["c09describe"],
+        "families": ["c09describe", "c09hello"],
         "rule": "c09describe: generated scopes (1-4 objects, every type kind, built-in and generated units, enums with display "
                 "data, defaults, examples, presence rules, disabled properties with and without reason, inline objects, nested "
                 "scopes with shadowed ids, recursive and namespaced references, int/string one-ofs inlined or not) and whole plugin "
@@ -232,7 +340,23 @@ def register(props):
                 "the schemas carry one of the not-describable classes; also generated: integer bounds, size bounds, int enum values "
                 "and int one-of keys at the ends of the int64 range (MaxInt64 arrives as a uint64 after CBOR), patterns that begin "
                 "or end with white space, whole scopes as one-of members (both key kinds), objects without properties built with a "
-                "nil property map; distinct by case text; non-trivial = described and at least four different node kinds",
+                "nil property map; distinct by case text; non-trivial = described and at least four different node kinds. "
+                "c09hello: the last clause through the REAL transport: the plugin is built as a schema.NewCallableSchema (steps with "
+                "handlers, signal handlers and emitters whose scopes are the generated ones), served by atp.RunATPServer over "
+                "in-process pipes and read by atp.NewClient(...).ReadSchema(); the schema the client returns is linked, described "
+                "again (must equal the original description, which is compared node by node with the model's) and probed with 3 "
+                "generated inputs per data schema (35 % mutated) next to the original; DEEP schemas: a spine of containers (a scope "
+                "as a property type, as a list item, a map value, a one-of member; lists, maps, inline objects, one-ofs over "
+                "objects) with units / enums with display data / defaults at the leaf, in the input, an output, a handled or an "
+                "emitted signal, filled up to a budget of CBOR nesting levels of the hello message: 60 % at 30-32 (32 = the "
+                "decoder's limit: hello > schema > steps > step > input > objects > object > properties > property > type is 10; a "
+                "scope adds 5, a one-of over objects 5, an inline object 3, a list or map 1, units 3, enum display 2; outputs and "
+                "signal data schemas start one map deeper than an input does... two: 12), 10 % at 33-36 (must be rejected with an "
+                "error, never a hang or panic: outside the property), the rest 12-31; plus a fixed ladder: for scope / list / map / "
+                "one-of a chain over an integer with units at every nesting from 28 to 35 the kind can reach, as input and as output; every case has "
+                "5 s watchdogs on ReadSchema, Close and the server's return, and the runner closes all four pipe ends; a ReadSchema "
+                "error at nesting <= 32 is a violation with the schema as the failing input; non-trivial = read through the "
+                "transport, nesting >= 20, at least four node kinds",
         "assumptions": ["schemas are map-based (struct-mapped objects are not in the shared syntax); a typed string enum cannot be "
                         "described at all (known finding D69), so `erase` only drops TreatEmptyAsDefaultValue",
                         "references into other namespaces are compared after the same namespace was applied to both schemas",
@@ -249,6 +373,15 @@ def register(props):
                       "hypothesis on the schema), C09_behaviour_plugin_all_paths (every data schema of a rebuilt plugin schema), "
                       "C09_plugin (whole plugin schemas with signal data schemas), "
                       "C09_not_describable_refuted (the hypothesis is necessary: D28, D29, D69 witnesses). "
+                      "C09_describe_nesting_bound / C09_hello_nesting_bound / C09_hello_within_transport (Proofs/C09Nest.v, "
+                      "Schema/DescribeNest.v): for EVERY schema the CBOR nesting of its description is at most the structural budget "
+                      "tnest s (5 per scope, 5 per one-of over objects, 3 per inline object, 1 per list / map, leaf 4 with units, 3 enum, "
+                      "2 ref, 1 otherwise), the hello message of EVERY plugin schema nests at most 4 + plugin_nest p levels, so a budget "
+                      "of 28 stays within the 32 levels the decoder of the ATP client accepts - the depth limit of family c09hello's "
+                      "generator; that ReadSchema returns a schema that describes itself and behaves like the plugin's own is TESTED "
+                      "through the real atp.RunATPServer / atp.NewClient on every run (family c09hello), the limit itself "
+                      "(cbor_max_nested = 32, fxamacker/cbor's default) is a recorded library fact checked by the family's ladder "
+                      "(32 carried, 33..37 rejected with an error). "
                       "Over the GENERATED meta-schema table (Generated/MetaDesc.v = DescribeScope/DescribeSchema/DescribeStepOutput"
                       "().SelfSerialize() of the SDK under test, re-dumped on every run, turned into a `schema` by the model's reader in "
                       "Schema/MetaTable.v; regexp/syntax's parse of the table's patterns and encoding/json on its default texts dumped "
